@@ -3431,3 +3431,43 @@ func (c *Ctx) resolveGuard(rule string) {
 	}
 	c.Check(eq, rule, key, loop.Pos(), "a new node is created exactly while the node has more than three neighbours", "the grouping loop runs while "+code.String()+", not while the node has more than three neighbours: the number of rounds differs at a node whose neighbour list is not 'parent + children' (the root of an unrooted tree): "+wit).Clause = "the resolved tree is binary ... only adds zero-length branches"
 }
+
+// ---------------------------------------------------------------------------------------------
+// HASH-AFTER-CLEAR (C04): ClearBitSets resets the per-side hash codes of every branch to 0 along
+// with the bit sets. Whoever calls it must recompute the hashes (ComputeEdgeHashes) afterwards,
+// as ReinitIndexes and ReinitInternalIndexes do; "only the names changed, bit sets are enough"
+// leaves every branch with hash 0, and no split of the tree is found in another tree's index.
+func (c *Ctx) hashAfterClear(rule string) (n int) {
+	clause := "branches of different trees on the same taxa compare equal exactly when they define the same split"
+	for _, fi := range append(c.AllFuncs(), c.PkgLevelClosures()...) {
+		if fi.Decl.Body == nil {
+			continue
+		}
+		info := fi.Pkg.TypesInfo
+		var clear, hash token.Pos
+		for _, call := range callsIn(fi.Decl.Body, true) {
+			g := calleeOf(info, call)
+			switch {
+			case isRepoFunc(g, "tree", "Tree", "ClearBitSets"):
+				if !clear.IsValid() {
+					clear = call.Pos()
+				}
+			case isRepoFunc(g, "tree", "Tree", "ComputeEdgeHashes") || isRepoFunc(g, "tree", "Tree", "ReinitIndexes") || isRepoFunc(g, "tree", "Tree", "ReinitInternalIndexes"):
+				if call.Pos() > clear && clear.IsValid() {
+					hash = call.Pos()
+				}
+			}
+		}
+		if !clear.IsValid() {
+			continue
+		}
+		n++
+		key := funcName(fi.Obj) + "/ClearBitSets→ComputeEdgeHashes"
+		if hash.IsValid() {
+			c.OK(rule, key, clear, "the hash codes zeroed with the bit sets are recomputed")
+		} else {
+			c.Violation(rule, key, clear, "ClearBitSets is called (it also zeroes the hash codes of every branch) and nothing recomputes them afterwards (ComputeEdgeHashes / ReinitIndexes): every branch keeps hash 0, so the same split in another tree is neither equal to it nor found in an index").Clause = clause
+		}
+	}
+	return
+}
